@@ -38,7 +38,8 @@ SRC = ['inline', 'dict', 'struct', 'h5']
 
 
 def shards(tier):
-    return [{'dtype': d, 'src': s} for d in DTYPES for s in SRC]
+    return [{'dtype': d, 'src': s} for d in DTYPES for s in SRC] + [{'dtype': 'uint16', 'src': 'dict', 'many_rows': n}
+                                                                     for n in (130, 16390)]
 
 
 def bound(tier, shard):
@@ -67,6 +68,12 @@ def _channel(ctx, i, dtype, src, rows, vrl, first):
 
 
 def body(ctx, shard):
+    if shard.get('many_rows'):
+        # frame numbers across the 1/2/4-byte UVARI boundaries (127/128, 16383/16384): one row per number
+        n = shard['many_rows']
+        chunk = ctx.choose('chunk', [None, 1000, 127])
+        ch = {'dtype': 'uint16', 'bo': '<', 'shape': [n], 'pat': [k % 65536 for k in range(n)], 'layout': 'C', 'cast': None}
+        return run_built({'src': 'dict', 'vrl': 8192, 'chans': [ch], 'chunk': chunk, 'earlier': 'none'})
     src = shard['src']
     rows = ctx.choose('rows', [3, 1, 2, 5])
     nch = ctx.choose('nch', [1, 2, 3])
